@@ -29,6 +29,12 @@ GenNext ==
           /\ \E e \in {RandomElement(pool)} : Step(e) /\ hist' = Append(hist, e)   \* bound once
 GenSpec == GenInit /\ [][GenNext]_<<mcvars, hist>>
 
+\* the same transition relation with the history, for breadth-first search: the last state of a counterexample
+\* carries the schedule that leads to it (used to turn model counterexamples into regression schedules)
+HistNext == Len(hist) < MaxLen /\ \E e \in JobEvents \cup ApiEvents : Step(e) /\ hist' = Append(hist, e)
+HistSpec == GenInit /\ [][HistNext]_<<mcvars, hist>>
+StreamsKeptHist == [][StreamsKeptStep]_<<mcvars, hist>>
+
 \* a behaviour ends when the length bound is hit, or when nothing is left to do
 Ended == Len(hist) = MaxLen \/ (Len(hist) > 0 /\ calls = MaxCalls /\ Caps \subseteq known /\ Settled)
 Emit == Ended => PrintT("@@J" \o ToJson([hist |-> hist]))
